@@ -30,6 +30,8 @@ properties! {
     "C03" => c03,
     "C04" => c04,
     "C05" => c05,
+    "C07" => c07,
+    "C08" => c08,
     "C06" => c06,
     "C19" => c19,
 }
